@@ -100,6 +100,7 @@ package latch
 //@   requires held(ref(l.Mutex))
 //@   loop 1 invariant l1: held(ref(l.Mutex)) && total >= 0
 //@   loop 1 invariant link: prev != nil && prev.next == curr
+//@   ensures count: result >= 0
 
 // Ghost: Latches.owed - a release has produced a waiter to wake up that has not been handed to the scheduler's wakeup yet
 // (set where releaseSlot returns a waiter). Only the scheduler goroutine releases: UnLock hands the lock over on the
@@ -130,3 +131,20 @@ package latch
 //@   bytes: key
 //@   may-panic
 //@   ensures settled: result != nil && (result.isStale || result.acquiredCount == len(result.requiredSlots))
+
+// The small accessors: IsStale reports the stale mark; SetCommitTS records the commit timestamp (what releaseSlot later
+// publishes to the key's node) and touches nothing else of the lock; a key's slot lies inside the slot array.
+//@ func (l *Lock) IsStale
+//@   prop C17
+//@   ensures result == l.isStale
+//@ func (l *Lock) SetCommitTS
+//@   prop C17
+//@   ensures l.commitTS == commitTS && l.isStale == old(l.isStale) && l.acquiredCount == old(l.acquiredCount) && l.startTS == old(l.startTS)
+//@ func (latches *Latches) slotID
+//@   prop C17
+//@   opaque-callee Sum32
+//@   ensures inside: len(latches.slots) > 0 ==> 0 <= result && result < len(latches.slots)
+// The periodic recycle visits every slot, and each one with that slot's mutex held (the precondition of the per-slot recycle).
+//@ func (latches *Latches) recycle
+//@   prop C17
+//@   loop 1 invariant l1: 0 <= i
